@@ -90,7 +90,7 @@ PortalWhy(e, st) ==
         ELSE IF ~PortalGraphOk(got, st.shape.nport, st.shape.ngrp) THEN "portal_graph_malformed" ELSE ""
 Owed(st) == IF st.kind = "rootconv" THEN ConvRootOwed(st.ver, st.to) ELSE ConvGroupOwed(st.ver, st.to)
 SecWhy(e, st) ==
-    IF e.phase = "convert" THEN (IF e.name \in Owed(st) /\ e.a # e.b THEN "representable_section_changed" ELSE "")
+    IF e.phase \in {"convert", "convert_editor"} THEN (IF e.name \in Owed(st) /\ e.a # e.b THEN "representable_section_changed" ELSE "")
     \* the converted object written in the target version and parsed back: the ordinary round-trip
     \* obligation at version st.to
     ELSE IF e.phase = "convparse"
@@ -126,6 +126,9 @@ Why(e, st) ==
                              ELSE IF e.len # st.wlen \/ e.tok # st.wtok THEN "second_write_differs" ELSE ""
       [] e.ev = "Bsp"     -> BspWhy(e, st)
       [] e.ev = "PortalRefs" -> PortalWhy(e, st)
+      \* every public way of producing the bytes yields the bytes of write_root
+      [] e.ev = "AltWrite" -> IF ~IsOk(e.res) THEN "alternative_writer_failed"
+                              ELSE IF e.len # st.wlen \/ e.tok # st.wtok THEN "alternative_writer_bytes_differ" ELSE ""
       [] e.ev = "RwChunk" -> IF e.a # e.b THEN "chunk_differs_on_second_write" ELSE ""
       [] e.ev = "Convert" -> IF IsOk(e.res) THEN "" ELSE "convert_failed"
       [] e.ev = "End"     -> EndWhy(st)
@@ -163,6 +166,7 @@ PhaseOk(e, st) ==
       [] e.ev = "Sec"     -> st.ph \in {"written", "parsed", "rewritten", "converted"}
       [] e.ev = "Rewrite" -> st.ph = "parsed"
       [] e.ev = "RwChunk" -> st.ph = "rewritten"
+      [] e.ev = "AltWrite" -> st.ph \in {"written", "converted"}
       [] e.ev = "Convert" -> st.ph = "reset"
       [] e.ev = "End"     -> st.ph # "idle"
       [] OTHER            -> FALSE
